@@ -12,7 +12,12 @@
 (*                   before the repair);                                    *)
 (*   Shared = FALSE  get_signer() returns an object of the caller's own      *)
 (*                   (the repaired design).                                 *)
-(* TLC checks KeyOwnership / BindsQuery for every interleaving.             *)
+(* An entity's key can be rolled over in place (Rekey): the key file keeps    *)
+(* its name, gets new content, and the entity object is rebuilt from its     *)
+(* configuration.  KeyCache = TRUE is the design in which parsed keys are    *)
+(* remembered by file name (a rebuilt entity keeps signing with the retired  *)
+(* key) -- a second vacuity control.                                        *)
+(* TLC checks KeyOwnership / VerifiesOnlyOwn for every interleaving.        *)
 (***************************************************************************)
 EXTENDS Naturals, FiniteSets, Sequences, TLC
 
@@ -20,16 +25,27 @@ CONSTANTS Ent,          \* entities; each has its own key, named like the entity
           Algs,         \* supported signature algorithms
           Muts,         \* single-parameter mutations of a signed query ("none" = untouched)
           MaxWire,      \* bound on the number of signed URLs
-          Shared
+          Shared,
+          KeyCache,     \* parsed private keys remembered by file name
+          MaxGen        \* key roll-overs per entity
 
-VARIABLES slot,     \* [Algs -> Ent \cup {"nokey"}]  key held by the process-wide signer object (Shared only)
+\* key names: an entity's first key is named like the entity, its next one gets the suffix "2"
+KeyName(e, g) == IF g = 0 THEN e ELSE e \o "2"
+Certs == {KeyName(e, g) : e \in Ent, g \in 0..MaxGen}
+
+VARIABLES gen,      \* [Ent -> 0..MaxGen]  how often the entity's key was rolled over
+          loaded,   \* [Ent -> 0..MaxGen]  generation of the key the (re)built entity object holds
+          slot,     \* [Algs -> Ent \cup {"nokey"}]  key held by the process-wide signer object (Shared only)
           held,     \* [Ent -> Algs \cup {"none"}]   algorithm of the signer an entity obtained and still holds
           wire,     \* sequence of signed URLs: [by, alg, key]
           last
 
-vars == <<slot, held, wire, last>>
+vars == <<gen, loaded, slot, held, wire, last>>
+Key(e) == KeyName(e, loaded[e])          \* the key the entity object signs with
+Own(e) == KeyName(e, gen[e])             \* the key the entity's configuration names now
 
-Init == /\ slot = [a \in Algs |-> "nokey"]
+Init == /\ gen = [e \in Ent |-> 0] /\ loaded = [e \in Ent |-> 0]
+        /\ slot = [a \in Algs |-> "nokey"]
         /\ held = [e \in Ent |-> "none"]
         /\ wire = <<>>
         /\ last = [op |-> "Init"]
@@ -37,28 +53,38 @@ Init == /\ slot = [a \in Algs |-> "nokey"]
 \* RSACrypto.get_signer(alg): with the shared design the caller's key is written into the
 \* process-wide object
 Obtain(e, a) ==
-    /\ slot' = IF Shared THEN [slot EXCEPT ![a] = e] ELSE slot
+    /\ slot' = IF Shared THEN [slot EXCEPT ![a] = Key(e)] ELSE slot
     /\ held' = [held EXCEPT ![e] = a]
     /\ last' = [op |-> "Obtain", e |-> e, alg |-> a]
-    /\ UNCHANGED wire
+    /\ UNCHANGED <<wire, gen, loaded>>
+
+\* key roll-over in place: new content under the old file names, the entity object is built anew from its
+\* configuration (signers the old object handed out are gone with it)
+Rekey(e) ==
+    /\ gen[e] < MaxGen
+    /\ gen' = [gen EXCEPT ![e] = @ + 1]
+    /\ loaded' = [loaded EXCEPT ![e] = IF KeyCache THEN @ ELSE gen[e] + 1]
+    /\ held' = [held EXCEPT ![e] = "none"]
+    /\ last' = [op |-> "Rekey", e |-> e, key |-> KeyName(e, gen[e] + 1)]
+    /\ UNCHANGED <<slot, wire>>
 
 \* http_redirect_message(..., signer=<the object e obtained>): signs with whatever key that
 \* object holds now
 Sign(e) ==
     /\ held[e] # "none"
     /\ Len(wire) < MaxWire
-    /\ LET k == IF Shared THEN slot[held[e]] ELSE e IN
-       /\ wire' = Append(wire, [by |-> e, alg |-> held[e], key |-> k])
+    /\ LET k == IF Shared THEN slot[held[e]] ELSE Key(e) IN
+       /\ wire' = Append(wire, [by |-> e, own |-> Own(e), alg |-> held[e], key |-> k])
        /\ last' = [op |-> "Sign", e |-> e, alg |-> held[e], key |-> k, idx |-> Len(wire) + 1]
-    /\ UNCHANGED <<slot, held>>
+    /\ UNCHANGED <<slot, held, gen, loaded>>
 
 \* Entity.apply_binding(HTTP-Redirect, sign=True): obtain and sign within one call
 SignNow(e, a) ==
     /\ Len(wire) < MaxWire
-    /\ slot' = IF Shared THEN [slot EXCEPT ![a] = e] ELSE slot
-    /\ wire' = Append(wire, [by |-> e, alg |-> a, key |-> e])
-    /\ last' = [op |-> "SignNow", e |-> e, alg |-> a, key |-> e, idx |-> Len(wire) + 1]
-    /\ UNCHANGED held
+    /\ slot' = IF Shared THEN [slot EXCEPT ![a] = Key(e)] ELSE slot
+    /\ wire' = Append(wire, [by |-> e, own |-> Own(e), alg |-> a, key |-> Key(e)])
+    /\ last' = [op |-> "SignNow", e |-> e, alg |-> a, key |-> Key(e), idx |-> Len(wire) + 1]
+    /\ UNCHANGED <<held, gen, loaded>>
 
 \* the verdict the property demands: the certificate is the signer's own and nothing signed
 \* was changed, removed or given another meaning
@@ -68,25 +94,29 @@ Verdict(m, cert, mut) == mut = "none" /\ cert = m.key
 \* obtains a signer as well (side effect on the shared object), then checks
 Verify(v, i, cert, mut) ==
     /\ i \in 1..Len(wire)
-    /\ slot' = IF Shared THEN [slot EXCEPT ![wire[i].alg] = v] ELSE slot
+    /\ slot' = IF Shared THEN [slot EXCEPT ![wire[i].alg] = Key(v)] ELSE slot
     /\ last' = [op |-> "Verify", e |-> v, idx |-> i, cert |-> cert, mut |-> mut,
                 ok |-> Verdict(wire[i], cert, mut)]
-    /\ UNCHANGED <<held, wire>>
+    /\ UNCHANGED <<held, wire, gen, loaded>>
 
 Next == \/ \E e \in Ent, a \in Algs : Obtain(e, a) \/ SignNow(e, a)
-        \/ \E e \in Ent : Sign(e)
-        \/ \E v \in Ent, i \in 1..MaxWire, c \in Ent, m \in Muts : Verify(v, i, c, m)
+        \/ \E e \in Ent : Sign(e) \/ Rekey(e)
+        \/ \E v \in Ent, i \in 1..MaxWire, c \in Certs, m \in Muts : Verify(v, i, c, m)
 
 Spec == Init /\ [][Next]_vars
+\* `last` only reports what the step did (for replay and trace validation); the design checks look through it
+View == <<gen, loaded, slot, held, wire>>
 
 (***************************************************************************)
 (* Contract                                                                *)
 (***************************************************************************)
-\* the key used is always the one of the entity that requested the signature
-KeyOwnership == \A i \in 1..Len(wire) : wire[i].key = wire[i].by
+\* the key used is always the one of the entity that requested the signature -- the one its configuration
+\* named when it signed
+KeyOwnership == \A i \in 1..Len(wire) : wire[i].key = wire[i].own
 \* a signed URL verifies under its signer's certificate and under no other
 VerifiesOnlyOwn ==
-    \A i \in 1..Len(wire) : \A c \in Ent : Verdict(wire[i], c, "none") <=> c = wire[i].by
-TypeOK == /\ \A a \in Algs : slot[a] \in Ent \cup {"nokey"}
+    \A i \in 1..Len(wire) : \A c \in Certs : Verdict(wire[i], c, "none") <=> c = wire[i].own
+TypeOK == /\ \A a \in Algs : slot[a] \in Certs \cup {"nokey"}
+          /\ \A e \in Ent : gen[e] \in 0..MaxGen /\ loaded[e] \in 0..MaxGen
           /\ \A e \in Ent : held[e] \in Algs \cup {"none"}
 =============================================================================
